@@ -22,7 +22,7 @@ META = dict(
     design_ref="DESIGN.md §6 C07")
 
 ELEMENT_MUT = re.compile(r"\[0\]|\[\"a\"\]|\.front\(\)|\.back\(\)|\.at\(|for \(x :")
-MUT_FUNS = ("mut_i", "mut_ip", "mut_d", "mut_b", "mut_s", "mut_v", "mut_m", "mut_o", "mut_op", "mut_osp")
+MUT_FUNS = ("mut_pb", "mut_pbp", "mut_pd", "mut_i", "mut_ip", "mut_d", "mut_b", "mut_s", "mut_v", "mut_m", "mut_o", "mut_op", "mut_osp")
 
 
 def parse_snap(s):
